@@ -51,7 +51,7 @@ P = {
  "C12": ("proof", "4.C12", "Coq proof over executable model + differential correspondence", "Greedy unfolding of Count and the exact split of Cut proved for Spec; Count's general loop and Cut (both package shapes) proved to compute them around the proved model of Index itself (resuming after the matched text of the haystack, whose width differs from the needle's); Count's single-ASCII-byte path (the accelerated byte count's scalar definition plus the occurrences of U+212A / U+017F for K k S s) is proved to count the code points in the byte's folding orbit, so C12_count_full_refines holds for EVERY needle."),
  "C13": ("proof", "4.C13", "Coq proof about the amd64 assembly itself (instruction lists regenerated from the .s files by tools/asm2prog.py on every run, executed by the machine model X86.v) and about every pure-Go kernel body, for every length / address / alignment / surrounding memory, with and without AVX2; + guard-page sweep on the real CPU + machine model validated against the real kernels",
          "Proved (Properties/C13.v): IndexNonASCII/IndexByteNonASCII, IndexByte/IndexByteString (wrappers' letter test and both bodies) and Count/CountString (POPCNT hand-over, letter test, both counting bodies) of the go1.22+ file set return index_non_ascii / k_index_byte / k_count, the scalar definitions, started from arbitrary register contents; Done also means every load stayed inside the 4 KiB pages holding a byte of the argument, the only store was the result slot, no address or counter wrapped, no jump read an undefined flag. The portable, no-POPCNT and standard-library based Go bodies are proved equal to the same definitions. "
-         "Modelled, not verified: the x86 instruction semantics of X86.v (validated on every run: the extracted interpreter is run on the translated programs at 6 placements x 3 surroundings x 4 AVX2/POPCNT combinations x 2 entry points against what the real kernels returned), the translator tools/asm2prog.py, the pre-1.22 file set and the GOAMD64=v3 preprocessing of the assembly (translated and swept, not proved), arm64 assembly. Search for a failing input when a proof breaks: the guard-page sweep (lengths 0..200 + page-crossing lengths quick / 0..4352 thorough, all alignments, flush against PROT_NONE pages on both sides, needle-filled surroundings)."),
+         "Modelled, not verified: the x86 instruction semantics of X86.v (validated on every run: the extracted interpreter is run on the translated programs at 6 placements x 3 surroundings x 4 AVX2/POPCNT combinations x 2 entry points against what the real kernels returned), the translator tools/asm2prog.py, arm64 assembly. The pre-1.22 file set is covered by a general theorem (erasing PCALIGN no-ops preserves every run's result, X86Erase.v) plus the computed check that the pre-1.22 programs are the go1.22 programs without their no-ops; what GOAMD64=v3 assembles is covered under C14. Search for a failing input when a proof breaks: the guard-page sweep (lengths 0..200 + page-crossing lengths quick / 0..4352 thorough, all alignments, flush against PROT_NONE pages on both sides, needle-filled surroundings)."),
  "C14": ("proof", "4.C14", "Coq proof that every kernel back end computes the same function (the assembly with its AVX2 path, with its SSE path, the GOAMD64=v3 preprocessing of the assembly, the no-POPCNT Go fallback, the portable and the standard-library based Go bodies all return the scalar definitions) and that the search models above the kernels do not depend on the back-end parameters; + the correspondence corpus executed under 6 configurations and compared case by case",
          "Proved (Properties/C14.v): C14_kernel_backends_agree — for IndexNonASCII, IndexByteString and CountString the run of the default assembly with AVX2, without AVX2, of the v3 preprocessing (proofs derived by tools/mkv3.py from the default ones and re-checked) and the Go bodies yield one value, at any placement; C14_search_models_configuration_free — the models of Index, IndexRune, IndexByte, IndexAny, LastIndexAny return the same result under every NativeIndex / cut-over / threshold setting (each refines the same Spec). "
          "PARTIAL: the tie of those models and of the machine model to the code is the correspondence, run under every configuration: runtime AVX2, cpu.avx2=off, cpu.popcnt=off, both off, GOAMD64=v3, GOARCH=386 (portable file set, executed natively), plus the standard-library based kernels compiled on the host. "
